@@ -288,6 +288,13 @@ def firing_mutants(src: dict[str, str]) -> list[dict]:
     # C16 (NLCOUNT, completeness): the escaped character is no longer looked at for a line feed
     m += _each("helpers/parse_link_title.py", src, lambda n: isinstance(n, ast.If) and isinstance(n.test, ast.Compare) and "charCodeAt(string, pos) == 10" in U(n.test)
                and any(isinstance(x, ast.AugAssign) for x in n.body), lambda n: ast.Pass(), "C16", "LF test of the escaped character dropped in parseLinkTitle", 1)
+    # C03 (NONBLANK, end): the indented-code rule returns with the scan cursor instead of the end of its last non-blank line
+    def to_cursor(n):
+        n = copy.deepcopy(n)
+        n.value = ast.Name(id="nextLine", ctx=ast.Load())
+        return n
+    m += _each("rules_block/code.py", src, lambda n: isinstance(n, ast.Assign) and U(n.targets[0]) == "state.line" and isinstance(n.value, ast.Name)
+               and n.value.id == "last", to_cursor, "C03", "code: state.line = nextLine (behind the trailing blank lines)", 1)
     # C15 (IDENT): structural equality on tree nodes
     def add_eq(n):
         n = copy.deepcopy(n)
